@@ -6,6 +6,8 @@ import (
 	"strings"
 	"time"
 
+	sdk "github.com/cosmos/cosmos-sdk/types"
+
 	"vh/sim"
 )
 
@@ -24,6 +26,9 @@ var kvPrefixOf = map[string]string{
 	"AuctionV2.GetUserLimitBidDataByPremium": "08", "AuctionV2.GetUserLimitBidDataByAddress": "09",
 	"AuctionV2.GetAllLimitBidProtocolData": "14", "AuctionV2.GetLimitBidProtocolDataByAssetID": "14",
 	"AuctionV2.GetAuctionHistorical": "07", "AuctionV2.GetAuctionHistoricals": "07",
+	"Rewards.GetEpochTime": "20", "Rewards.GetEpochTimeID": "17", "Rewards.GetExternalRewardsLockersID": "15", "Rewards.GetExternalRewardsVaultID": "16",
+	"Rewards.GetExternalRewardsLendID": "28", "Rewards.GetGaugeID": "22",
+	"Lend.GetUserLendIDCounter": "16", "Lend.GetUserBorrowIDCounter": "25", "Lend.GetPoolID": "17", "Lend.GetLendPairID": "18",
 }
 
 var storeOfComp = func() map[string]string {
@@ -173,67 +178,194 @@ func RoundTrip(o *Chain, lg *sim.Log, parent int, run string, pointArgs map[stri
 	}
 	labels := accountLabels(o)
 	for _, asp := range BuildAspects(o) {
-		fo, fc := o.Fork(), cp.Fork()
-		parentNode := rt
-		pre0, pre1 := contObserve(fo), contObserve(fc)
-		prevO, prevC := pre0.Ids, pre1.Ids
-		var hookO, hookC map[string]interface{}
-		type txpair struct {
-			tag    string
-			ro, rc TxRes
-		}
-		var txs []txpair
-		for n, it := range asp.Items {
-			switch {
-			case it.Begin > 0:
-				bo, bc := fo.Begin(time.Duration(it.Begin)*time.Second), fc.Begin(time.Duration(it.Begin)*time.Second)
-				hookO, hookC = map[string]interface{}{"beginPanic": bo.Panic}, map[string]interface{}{"beginPanic": bc.Panic}
-				txs = nil
-			case it.Step != nil:
-				txs = append(txs, txpair{it.Step.Tag, fo.Exec(*it.Step), fc.Exec(*it.Step)})
-			case it.End:
-				eo, ec := fo.End(), fc.End()
-				hookO["endPanic"], hookC["endPanic"] = eo.Panic, ec.Panic
-				oo, occ := contObserve(fo), contObserve(fc)
-				newO, newC := movedIds(prevO, oo.Ids), movedIds(prevC, occ.Ids)
+		runAspect(o, cp, asp, lg, rt, run, labels, stt)
+	}
+	return rt
+}
+
+// runAspect applies one continuation to forks of both chains and logs it.
+//
+// Aspect "blocks" (hooks only) is compared in absolute terms: hook results, every counter that moved, and the
+// balance of every module account / of the actors (one ContBal node per account class).
+// Message aspects are compared by the EFFECT of their messages: next to the treatment fork (blocks + messages)
+// a control fork runs the same blocks without the messages on the same chain; the effect is what differs
+// between treatment and control (balance deltas per account and denom, counters that moved differently). The
+// effect on the original must equal the effect on the copy. This keeps the divergence of block hooks (judged by
+// the "blocks" aspect) from being charged again to every message.
+func runAspect(o, cp *Chain, asp Aspect, lg *sim.Log, rt int, run string, labels map[string]string, stt *RTStats) {
+	absolute := asp.Name == "blocks"
+	fo, fc := o.Fork(), cp.Fork()
+	var ko, kc *Fork // control forks
+	if !absolute {
+		ko, kc = o.Fork(), cp.Fork()
+	}
+	parentNode := rt
+	prevO, prevC := contObserve(fo).Ids, contObserve(fc).Ids
+	var hookO, hookC map[string]interface{}
+	type txpair struct {
+		tag    string
+		ro, rc TxRes
+	}
+	var txs []txpair
+	for n, it := range asp.Items {
+		switch {
+		case it.Begin > 0:
+			dt := time.Duration(it.Begin) * time.Second
+			bo, bc := fo.Begin(dt), fc.Begin(dt)
+			if !absolute {
+				ko.Begin(dt)
+				kc.Begin(dt)
+			}
+			hookO, hookC = map[string]interface{}{"beginPanic": bo.Panic}, map[string]interface{}{"beginPanic": bc.Panic}
+			txs = nil
+		case it.Step != nil:
+			txs = append(txs, txpair{it.Step.Tag, fo.Exec(*it.Step), fc.Exec(*it.Step)})
+		case it.End:
+			eo, ec := fo.End(), fc.End()
+			hookO["endPanic"], hookC["endPanic"] = eo.Panic, ec.Panic
+			oo, occ := contObserve(fo), contObserve(fc)
+			var newO, newC map[string]int64
+			var balO, balC, who string
+			if absolute {
+				newO, newC = movedIds(prevO, oo.Ids), movedIds(prevC, occ.Ids)
 				prevO, prevC = oo.Ids, occ.Ids
-				who := balanceDiffWho(fo, fc, labels)
-				stt.ContNodes++
-				if oo.Bal != occ.Bal || len(diffKeys(newO, newC)) > 0 {
+				balO, balC = oo.Bal, occ.Bal
+				who = balanceDiffWho(fo, fc, labels)
+			} else {
+				ko.End()
+				kc.End()
+				newO, newC = movedIds(contObserve(ko).Ids, oo.Ids), movedIds(contObserve(kc).Ids, occ.Ids)
+				effO, effC := balanceEffect(fo, ko, labels), balanceEffect(fc, kc, labels)
+				balO, _ = digestJSON(effO)
+				balC, _ = digestJSON(effC)
+				whoSet := map[string]bool{}
+				for _, k := range diffKeys(effO, effC) {
+					l := strings.SplitN(k, "/", 2)[0]
+					if !strings.HasPrefix(l, "mod:") && !strings.HasPrefix(l, "other:") {
+						l = "users" // which actor happens to hold the position does not matter
+					}
+					whoSet[l] = true
+				}
+				who = strings.Join(setList(whoSet), ";")
+			}
+			stt.ContNodes++
+			if balO != balC || len(diffKeys(newO, newC)) > 0 {
+				stt.ContDiffs++
+			}
+			blkNode := lg.Add(parentNode, run, "Cont", map[string]interface{}{"aspect": asp.Name, "item": n, "h": fo.Height, "absolute": absolute}, nil,
+				map[string]interface{}{"hooks": oc{hookO, hookC}, "bal": oc{balO, balC}, "who": who,
+					"comps": strings.Join(diffKeys(oo.Comps, occ.Comps), ";")})
+			if absolute {
+				bo, bc := balancesByClass(fo, labels), balancesByClass(fc, labels)
+				for _, cls := range unionKeysS(bo, bc) {
+					lg.Add(blkNode, run, "ContBal", map[string]interface{}{"aspect": asp.Name, "acct": cls}, nil,
+						map[string]interface{}{"o": bo[cls], "c": bc[cls]})
+				}
+			}
+			for _, t := range txs {
+				mod := t.tag
+				if k := strings.Index(mod, "."); k > 0 {
+					mod = mod[:k]
+				}
+				lg.Add(blkNode, run, "ContTx", map[string]interface{}{"aspect": asp.Name, "tag": t.tag, "mod": mod}, nil,
+					map[string]interface{}{"o": resView(t.ro), "c": resView(t.rc), "sym": txSym(t.ro, t.rc), "codes": okCode(t.ro) + "|" + okCode(t.rc)})
+				if txSym(t.ro, t.rc) != "same" {
 					stt.ContDiffs++
 				}
-				// block node: hooks + balances (+ diagnostic component digests)
-				blkNode := lg.Add(parentNode, run, "Cont", map[string]interface{}{"aspect": asp.Name, "item": n, "h": fo.Height}, nil,
-					map[string]interface{}{"hooks": oc{hookO, hookC}, "bal": oc{oo.Bal, occ.Bal}, "who": who,
-						"comps": strings.Join(diffKeys(oo.Comps, occ.Comps), ";")})
-				for _, t := range txs {
-					mod := t.tag
-					if k := strings.Index(mod, "."); k > 0 {
-						mod = mod[:k]
-					}
-					lg.Add(blkNode, run, "ContTx", map[string]interface{}{"aspect": asp.Name, "tag": t.tag, "mod": mod}, nil,
-						map[string]interface{}{"o": resView(t.ro), "c": resView(t.rc), "sym": txSym(t.ro, t.rc), "codes": okCode(t.ro) + "|" + okCode(t.rc)})
-					if txSym(t.ro, t.rc) != "same" {
-						stt.ContDiffs++
-					}
+			}
+			for _, name := range unionKeys(newO, newC) {
+				vo, okO := newO[name]
+				vc, okC := newC[name]
+				if !okO {
+					vo = -1
 				}
-				for _, name := range unionKeys(newO, newC) {
-					vo, okO := newO[name]
-					vc, okC := newC[name]
-					if !okO {
-						vo = -1
-					}
-					if !okC {
-						vc = -1
-					}
-					lg.Add(blkNode, run, "ContId", map[string]interface{}{"aspect": asp.Name, "counter": name}, nil,
-						map[string]interface{}{"o": vo, "c": vc, "sym": idSym(vo, vc)})
+				if !okC {
+					vc = -1
 				}
-				parentNode = blkNode
+				lg.Add(blkNode, run, "ContId", map[string]interface{}{"aspect": asp.Name, "counter": name}, nil,
+					map[string]interface{}{"o": vo, "c": vc, "sym": idSym(vo, vc)})
+			}
+			parentNode = blkNode
+		}
+	}
+}
+
+func allBalances(f *Fork) map[string]sdk.Coins {
+	m := map[string]sdk.Coins{}
+	for _, b := range f.App.BankKeeper.GetAccountsBalances(f.Ctx) {
+		m[b.Address] = b.Coins
+	}
+	return m
+}
+
+func labelOf(addr string, labels map[string]string) string {
+	if l, ok := labels[addr]; ok {
+		return l
+	}
+	return "other:" + addr[len(addr)-6:]
+}
+
+// balanceEffect = balances(treatment) - balances(control), per account label and denom (non-zero entries only).
+func balanceEffect(t, k *Fork, labels map[string]string) map[string]string {
+	bt, bk := allBalances(t), allBalances(k)
+	out := map[string]string{}
+	seen := map[string]bool{}
+	for a := range bt {
+		seen[a] = true
+	}
+	for a := range bk {
+		seen[a] = true
+	}
+	for a := range seen {
+		denoms := map[string]bool{}
+		for _, c := range bt[a] {
+			denoms[c.Denom] = true
+		}
+		for _, c := range bk[a] {
+			denoms[c.Denom] = true
+		}
+		for dn := range denoms {
+			d := bt[a].AmountOf(dn).Sub(bk[a].AmountOf(dn))
+			if !d.IsZero() {
+				out[labelOf(a, labels)+"/"+dn] = d.String()
 			}
 		}
 	}
-	return rt
+	return out
+}
+
+// balancesByClass: one canonical string per module account, one digest for all actors, one for all other accounts.
+func balancesByClass(f *Fork, labels map[string]string) map[string]string {
+	users, others := map[string]string{}, map[string]string{}
+	out := map[string]string{}
+	for a, cs := range allBalances(f) {
+		if cs.IsZero() {
+			continue
+		}
+		l, ok := labels[a]
+		switch {
+		case ok && strings.HasPrefix(l, "mod:"):
+			out[l] = cs.String()
+		case ok:
+			users[l] = cs.String()
+		default:
+			others[a] = cs.String()
+		}
+	}
+	out["users"], _ = digestJSON(users)
+	out["others"], _ = digestJSON(others)
+	return out
+}
+
+func unionKeysS(a, b map[string]string) []string {
+	m := map[string]bool{}
+	for k := range a {
+		m[k] = true
+	}
+	for k := range b {
+		m[k] = true
+	}
+	return setList(m)
 }
 
 func txSym(ro, rc TxRes) string {
